@@ -94,7 +94,7 @@ class Zygote:
     def __init__(self):
         import subprocess
         env = dict(os.environ)
-        env["PYTHONHASHSEED"] = "0"
+        env["PYTHONHASHSEED"] = os.environ.get("PYTHONHASHSEED", "0")
         self.p = subprocess.Popen([sys.executable, "-c", "import sys; sys.path.insert(0, %r); from harness import p_iso; p_iso.zygote_main()" % core.VERIF],
                                   stdin=subprocess.PIPE, stdout=subprocess.PIPE, text=True, env=env, cwd=core.VERIF)
 
